@@ -193,8 +193,11 @@ func MeasureClockOffsetSCION(ctx context.Context, log *slog.Logger,
 			}
 		}(ctx, log, mtrcs, ntpcs[i], localAddr, remoteAddr, sps[i])
 	}
-	collectMeasurements(ctx, ms, msc)
-	m := measurements.FaultTolerantMidpoint(ms)
+	n = collectMeasurements(ctx, ms, msc)
+	if n == 0 {
+		return time.Time{}, 0, errNoMeasurement
+	}
+	m := measurements.FaultTolerantMidpoint(ms[:n])
 	return m.Timestamp, m.Offset, m.Error
 }
 
